@@ -331,18 +331,19 @@ DiagRule(t, k) ==
          [] cls = "Diagonal" -> DiagIdentityLike("diag(Diagonal,int,Algorithm)", Len(u.p.v), k, MCol(u.p.v))
          \* Sum: sum(diag(M, k, alg) for M in A.Ms)
          [] cls = "Sum" -> SumFold(sub, 1, <<"diag(Sum,int,Algorithm)">>, TRUE, NoVal)
-         \* BlockDiag: assert k == 0; concat([diag(M)] * m ...)      (no test that the blocks are square)
-         [] cls = "BlockDiag" ->
-               IF k # 0 THEN Res(<<"diag(BlockDiag,int,Algorithm)">>, "AssertionError", NoVal)
-               ELSE Compose("diag(BlockDiag,int,Algorithm)", sub, MVStackN(Repeat(Vals(sub), u.p.mult)))
+         \* BlockDiag: cond = every block square (since fix ccf9fbf); assert k == 0; concat([diag(M)] * m ...)
+         [] cls = "BlockDiag" /\ (\A i \in 1..Len(u.a): IsSq(u.a[i])) ->
+               IF k # 0 THEN Res(<<"diag(BlockDiag,int,Algorithm)?">>, "AssertionError", NoVal)
+               ELSE Compose("diag(BlockDiag,int,Algorithm)?", sub, MVStackN(Repeat(Vals(sub), u.p.mult)))
          \* ScalarMul: A.c * diag(I_like(A), k, alg)
          [] cls = "ScalarMul" ->
                LET i == DiagIdentityLike("diag(Identity,int,Algorithm)", u.p.n, k, Ones(u.p.n)) IN
                Res(<<"diag(ScalarMul,int,Algorithm)">> \o i.calls, i.exc, IF OK(i) THEN MScale(u.p.c, i.val) ELSE NoVal)
-         \* Kronecker: assert k == 0; outer product of the factors' diagonals, flattened   (no test for square factors)
-         [] cls = "Kronecker" ->
-               IF k # 0 THEN Res(<<"diag(Kronecker,int,Algorithm)">>, "AssertionError", NoVal)
-               ELSE Compose("diag(Kronecker,int,Algorithm)", sub,
+         \* Kronecker: cond = every factor square (since fix ccf9fbf); assert k == 0; outer product of the factors'
+         \* diagonals, flattened
+         [] cls = "Kronecker" /\ (\A i \in 1..Len(u.a): IsSq(u.a[i])) ->
+               IF k # 0 THEN Res(<<"diag(Kronecker,int,Algorithm)?">>, "AssertionError", NoVal)
+               ELSE Compose("diag(Kronecker,int,Algorithm)?", sub,
                             IF Mutant = "DiagKronSum" THEN OuterSumSeq(Vals(sub)) ELSE MKronN(Vals(sub)))
          \* KronSum: assert k == 0; outer sum of the factors' diagonals, flattened
          [] cls = "KronSum" ->
